@@ -850,6 +850,11 @@ func Compare(refTree *Tree, compTrees <-chan Trees, tips, comparetreeidentical b
 									common++
 								}
 							}
+							// All branches of the compared tree are in the reference tree:
+							// the trees are identical only if the reference tree has no other branch
+							if sametree && total != total2 {
+								sametree = false
+							}
 						}
 					}
 				}
